@@ -54,6 +54,29 @@ func suiteC13(c *Ctx) {
 		}
 		flush("header-boundaries")
 	}
+	// the same small headers asked for again after the caller has written over what it was handed
+	// (a header is the caller's: nothing may be shared between two answers), and small items encoded twice
+	for _, typ := range typNames {
+		for n := 0; n <= 70; n++ {
+			steps = append(steps, Step{Op: "HB", S: []byte(typ), N: int64(n)})
+		}
+		for n := 0; n <= 70; n++ {
+			steps = append(steps, Step{Op: "HB", S: []byte(typ), N: int64(n)})
+		}
+		c.emit(Case{"header-small-scribbled", steps, true})
+		steps = nil
+	}
+	for _, sp := range leafSpecs {
+		g2 := c.gen()
+		for rep := 0; rep < 2; rep++ {
+			for n := 0; n <= 9; n++ {
+				it := g2.leaf(sp, n, false)
+				m := g2.hsmsMsg(it)
+				g2.add(Step{Op: "RP", Ref: m})
+			}
+		}
+		c.emit(Case{"item-small-scribbled", g2.steps, true})
+	}
 	nrand := c.scale(20000, 400000)
 	for i := 0; i < nrand; i++ {
 		typ := typNames[g.pick(len(typNames))]
@@ -234,6 +257,39 @@ func bigListProbe(c *Ctx, id string, cs Case) {
 	}
 }
 
+// the largest items and messages larger than one item, on the library alone,
+// once per run: they are constructible, encode, decode and encode again to the same bytes
+func bigMessagesProbe(c *Ctx, id string, cs Case) {
+	if c.stats["limit-probe"] > 0 {
+		return
+	}
+	c.stats["limit-probe"] = 1
+	for _, n := range []int{16777214, 16777215} {
+		var it ast.ItemNode
+		func() {
+			defer func() { recover() }()
+			it = ast.NewASCIINode(string(bytes.Repeat([]byte{'m'}, n)))
+		}()
+		c.stats["limit-probe-items"]++
+		if it == nil {
+			c.hit(id, cs, "limit", fmt.Sprintf("an ASCII item of %d characters is refused", n))
+			continue
+		}
+		b := it.ToBytes()
+		if len(b) != n+4 {
+			c.hit(id, cs, "limit-encoding", fmt.Sprintf("an ASCII item of %d characters encodes to %d bytes", n, len(b)))
+			continue
+		}
+		m := ast.NewHSMSDataMessage("", 1, 1, 0, "H->E", it, 1, []byte{0, 0, 0, 1})
+		mb := m.ToBytes()
+		back, ok := hsms.Parse(mb)
+		if !ok || !bytes.Equal(back.ToBytes(), mb) {
+			c.hit(id, cs, "limit-decode", fmt.Sprintf("an ASCII item of %d characters: decode ok=%v", n, ok))
+		}
+	}
+	bigListProbe(c, id, cs)
+}
+
 func min(a, b int) int {
 	if a < b {
 		return a
@@ -389,6 +445,7 @@ func suiteC01(c *Ctx) {
 
 // the property statement itself, on the library alone
 func monitorC01(c *Ctx, id string, cs Case, e *Exec, final []string) {
+	bigMessagesProbe(c, id, cs)
 	for i, s := range cs.Steps {
 		if s.Op != "RP" {
 			continue
@@ -549,6 +606,7 @@ func suiteC03(c *Ctx) {
 // accepted inputs denote their bytes: decoding the re-encoding gives the same
 // message again, and a canonical input is reproduced exactly
 func monitorC03(c *Ctx, id string, cs Case, e *Exec, final []string) {
+	bigMessagesProbe(c, id, cs)
 	for i, s := range cs.Steps {
 		if s.Op != "HP" {
 			continue
